@@ -77,6 +77,10 @@ func runC05(r *oblig.Report) {
 	e5path.PlaceholderRegistered(c.P, r, "C05.6", fs)
 	r.Rule("C05.10", "instance-table", "an intersection is computed over operands (the edges of one restriction / one tuple to userset together), and a running set that became empty is never refilled", 1)
 	e5path.IntersectionPerOperand(c.P, r, "C05.10", fs)
+	r.Rule("C05.11", "instance-table", "the subtracted side of an exclusion is its last operand (edges grouped), not its last edge", 1)
+	e5path.ExclusionPerOperand(c.P, r, "C05.11", fs)
+	r.Rule("C05.12", "instance-table", "the weights of a resolved cycle root are stored only when they are not empty; the empty case is an error (no terminal type)", 1)
+	e5path.RootReachesSomething(c.P, r, "C05.12", fs)
 	r.Rule("C05.9", "path-enumeration", "the placeholder weight of an unresolved cycle is given only after the cycle classifier's verdict or a tuple kind (TTU, direct) of the edge itself was established on the path", 1)
 	e5path.PlaceholderNeedsTuple(c.P, r, "C05.9", fs)
 	r.Rule("C05.5", "path-enumeration", "a node without outgoing edges that is not a terminal type ends the weight calculation in an error", 3)
